@@ -4,6 +4,7 @@
  * (elements [0, filled_n) are file bytes [filled_from, filled_from + filled_n); elements beyond are value-initialised
  * zeros, NOT file data).  The contract is the one FileAccess::read documents and OsFile::read implements for the
  * uncompressed file: exactly the bytes of [pos, pos+len) that exist, i.e. min(len, size-pos) of them, in order. */
+#include <stdlib.h>
 #include "dfs_types.h"
 static void mon_read_block(struct DataAccess *obj, unsigned long lba) { (void)obj; (void)lba; }
 static void mon_read_result(struct DataAccess *obj, _Bool ok) { (void)obj; (void)ok; }
